@@ -14,7 +14,7 @@ from ..util import (has_call, find_calls, nodes_where, escape_path, node_ast_for
 from ..util import clone
 from .. import mutate as M
 
-TECHNIQUE = "static analysis: CFG must-pass-through (write -> flush/close before next write or exit), control-dependence extraction (yield guarded by 'id not in restored'), value provenance of the restored Result, who-may-memoise rule on the restore call chain"
+TECHNIQUE = "static analysis: CFG must-pass-through (write -> flush/close before next write or exit), control-dependence extraction (yield guarded by 'id not in restored'), value provenance of the restored Result, who-may-memoise rule on the restore call chain, identity test by exact rational arithmetic over a substitution environment (no code of the repo is executed) of the torn-tail repair's block scan, three-site agreement of the gzip predicate, hash-order rule on the triple ordering"
 
 EXPLANATION = ("Static rules over the transaction-log writer (DiskSink), the task generator (MakeTasks), "
                "Experiment.run and the restore path: write->flush on every path, append mode + one record per "
@@ -65,6 +65,19 @@ def run(ctx):
     ctx.files |= sub.files
     ctx.functions |= sub.functions
     ctx.floor("C02.R12", "learner-copy obligations", len(sub.obs), 4)
+    # the repair in front of the restore must take a file for gzip exactly when the writer and the reader do: otherwise it 'repairs' a plain log as gzip and truncates it to nothing
+    from . import c12
+    ctx.rule("C02.R13", "one gzip predicate: DiskSink.__enter__, DiskSource.read and the torn-tail repair decide 'this is a .gz file' by the same test of the path")
+    c12.gz_predicate(ctx, "C02.R13")
+    # ids are handed out by order of first appearance (MakeTasks): the resuming PROCESS must see the triples in the same order as the interrupted one
+    ctx.rule("C02.R14", "C01.R7 on the path that orders the triples: nothing hash-ordered (a set of object tuples iterates by id()) is iterated into the triple list / the task stream")
+    sub = type(ctx)(ctx.model, ctx.prop, ctx.tier, silent=True)
+    c01.r7_hash_order(sub)
+    for o in sub.obs:
+        o.rule = "C02.R14"
+        ctx.obs.append(o)
+    ctx.files |= sub.files
+    ctx.functions |= sub.functions
 
 
 # ------------------------------------------------------------------------------------------ R1
@@ -473,9 +486,7 @@ def r8_nothing_dropped(ctx):
         g = [(unparse(t), pol) for t, pol in guards_of(y, enc)]
         extra = [t for t, pol in g if not (t.endswith("[0] == 'T0'") or t.endswith("[0] == 'T1'") or t.endswith("[0] == 'T2'") or t.endswith("[0] == 'T3'") or t.endswith("[0] == 'T4'"))]
         ctx.ob("C02.R8", RES, "TransactionEncode.filter", y, "the record is written whenever its transaction arrives (guarded by the tag test only)", not extra, detail={"other guards": extra})
-    init = ctx.fn(RES, "TransactionEncode.__init__")
-    stores = [unparse(t) for x in ast.walk(init) if isinstance(x, ast.Assign) for t in x.targets]
-    ctx.ob("C02.R8", RES, "TransactionEncode.__init__", init, "the encoder keeps nothing but the restored flag (it has no basis for filtering)", stores == ["self._restored"], detail={"stores": stores}, stmt="encoder state")
+    encoder_stateless(ctx, "C02.R8")
     chunker_partitions(ctx, "C02.R8")
     # the other direction: whatever was written is recognised as done on resume.  MakeTasks derives the finished triples from the rows of
     # the restored interactions table, so an I record must leave a trace there
@@ -488,6 +499,16 @@ def r8_nothing_dropped(ctx):
 
 
 # ------------------------------------------------------------------------------------------ R6
+def encoder_stateless(ctx, rule):
+    init = ctx.fn(RES, "TransactionEncode.__init__")
+    stores = [unparse(t) for x in ast.walk(init) if isinstance(x, ast.Assign) for t in x.targets]
+    ctx.ob(rule, RES, "TransactionEncode.__init__", init, "the encoder keeps nothing but the restored flag (it has no basis for filtering)", stores == ["self._restored"], detail={"stores": stores}, stmt="encoder state")
+    flt = ctx.fn(RES, "TransactionEncode.filter")
+    writes = [x for x in ast.walk(flt) if isinstance(x, (ast.Assign, ast.AugAssign)) and any(is_self_attr(t) or (isinstance(t, ast.Subscript) and is_self_attr(t.value))
+                                                                                               for t in (x.targets if isinstance(x, ast.Assign) else [x.target]))]
+    ctx.ob(rule, RES, "TransactionEncode.filter", (writes or [flt])[0], "filter() stores nothing on the encoder", not writes, stmt="encoder filter state")
+
+
 def _in_tolerant_try(node, fn):
     """node lies in the body of a try with a handler that catches ValueError (or wider) and does not re-raise."""
     for comp, branch in control_ancestors(node, fn):
@@ -887,6 +908,8 @@ def r9_sink_context_owner(ctx, rule="C02.R9"):
 
 CONTROLS = [
     ("the torn tail is left in place", EXP, M.delete_stmt("Experiment.run", M.text_has("_drop_partial_record(result_file)")), "C02.R6"),
+    ("duplicate triples removed through a set", EXP, M.insert_before("Experiment._parse_init_args", lambda st: isinstance(st, ast.Return) and "triples" in ast.unparse(st), "triples = list(set(map(tuple, triples)))"), "C02.R14"),
+    ("writer and reader take only a trailing .gz for gzip", "coba/pipes/sinks.py", M.replace_expr("DiskSink.__enter__", "'.gz' in self._filename", "self._filename.endswith('.gz')"), "C02.R13"),
     ("one copy of a learner per chunk", "coba/experiments/process.py", M.replace_stmt("ProcessTasks.filter", M.text_has("lrn = deepcopy(lrn)"), "lrn = _copies.setdefault(id(lrn), deepcopy(lrn))"), "C02.R12"),
     ("plain repair: 'not found yet' is None but a block without line end stores 0", EXP, M.chain(M.replace_expr("_drop_partial_record", "pos > 0 and (not keep)", "pos > 0 and keep is None"), M.replace_stmt("_drop_partial_record", M.text_has("pos = size"), "pos, keep = size, None")), "C02.R6"),
     ("plain repair: kept offset counted from the end of the file", EXP, M.replace_expr("_drop_partial_record", "start + end + 1 if end >= 0 else 0", "size - (pos - start - end - 1) if end >= 0 else 0"), "C02.R6"),
